@@ -244,12 +244,19 @@ def analyse(tr):
 
 def rfc_expect(sender, facts):
     """-> (verdict, why): True = the block must be accepted, False = must be rejected, None = no requirement / not decidable"""
-    import gen.transport_params as g
     blk = facts.block.get(sender)
     peer, retry, odcid = facts.handshake_for(sender)
     if blk is None or peer is None or odcid is None or facts.problems:
         return None, "facts incomplete"
-    verdict, problems, items = g.rfc_judge("server" if sender == "s" else "client", blk)
+    return rfc_expect_raw("server" if sender == "s" else "client", blk, peer, retry, odcid)
+
+
+def rfc_expect_raw(role, blk, peer, retry, odcid):
+    """RFC 9000 §7.3 (+ §7.4/§18.2 through `rfc_judge`) for a block SENT by `role` in a handshake where the validator saw
+    `peer` (Source Connection ID of the sender's first Initial), followed the Retry `retry` (None: no Retry) and the
+    client's first Initial went to `odcid`"""
+    import gen.transport_params as g
+    verdict, problems, items = g.rfc_judge(role, blk)
     if verdict is False:
         return False, ",".join(problems)
 
@@ -260,7 +267,7 @@ def rfc_expect(sender, facts):
     # "absence of the initial_source_connection_id transport parameter from either endpoint" / value mismatch
     if vals(0x0f) != [peer]:
         why.append("initial_source_connection_id " + ("absent" if not vals(0x0f) else "differs from the Source Connection ID of the peer's first Initial"))
-    if sender == "s":
+    if role == "server":
         if vals(0x00) != [odcid]:
             why.append("original_destination_connection_id " + ("absent" if not vals(0x00) else "differs from the Destination Connection ID of the client's first Initial"))
         if retry is None and vals(0x10):
@@ -435,6 +442,83 @@ def model_conformance(ctx, traces):
                                                              "replay": "harness/vh-e2e binary with scenario_args; tools/e2e_c14_auth.py analyse(); lean driver tp-auth on ops"})
     ctx.oblige("correspond", f"python §7.3 oracle and Lean Rfc.TpAuth / Rfc.TransportParams agree on {len(lines)} observed (handshake, block) pairs",
                not ref_mism, "; ".join(ref_mism[:3]))
+
+
+def synthetic_ops(rng, n):
+    """(handshake, block) pairs that need no endpoint: connection IDs drawn from a small pool so that every match /
+    mismatch / absence / duplication combination of the three parameters occurs, for both roles, with and without a
+    Retry; a few ordinary and unknown parameters around them. Lengths stay inside what decoder and RFC agree on
+    (the known decoder deviations F10-F12 are the business of the `tp` component)."""
+    import gen.transport_params as g
+    ops = []
+    for _ in range(n):
+        role = rng.choice(["server", "server", "client"])
+        pool = [bytes(rng.randrange(256) for _ in range(rng.choice([4, 8, 8, 16, 20]))) for _ in range(3)]
+        peer = rng.choice(pool + [b""])
+        odcid = rng.choice([p for p in pool if len(p) >= 8] or [bytes(8)])
+        retry = rng.choice([None, None, pool[0], pool[1]])
+        near = lambda b: (bytes([b[0] ^ 1]) + b[1:]) if b else b"\x00"
+        cand = pool + [peer, odcid, near(peer), near(odcid), odcid[:-1], peer + b"\xee"] + ([retry, near(retry)] if retry else [])
+        items = []
+        if rng.random() < 0.85:
+            items.append((0x0f, peer if rng.random() < 0.6 else rng.choice(cand)))
+        if role == "server" or rng.random() < 0.15:
+            if rng.random() < 0.85:
+                items.append((0x00, odcid if rng.random() < 0.6 else rng.choice(cand)))
+            if rng.random() < (0.8 if retry else 0.3):
+                v = retry if (retry and rng.random() < 0.6) else rng.choice(cand)
+                items.append((0x10, v))
+        if rng.random() < 0.08 and items:
+            items.append(rng.choice(items))         # a repeated parameter
+        if rng.random() < 0.5:
+            items.append((0x04, bytes(g.vi(rng.choice([0, 7, 70000])))))
+        if rng.random() < 0.3:
+            items.append((31 * rng.randrange(1, 50) + 27, bytes(rng.randrange(256) for _ in range(rng.randrange(0, 5)))))
+        rng.shuffle(items)
+        # keep to lengths on which decoder and RFC agree: retry_source_connection_id of 0..3 bytes is F11
+        items = [(i, v) for i, v in items if not (i == 0x10 and len(v) < 4)]
+        blk = bytes(x for i, v in items for x in g.tlv(i, v))
+        ops.append(("block {} {} {} {} {}".format(role, hx(peer), hx(retry) if retry is not None else "none", hx(odcid), hx(blk)), role, blk, peer, retry, odcid))
+    return ops
+
+
+def synthetic_crosscheck(ctx, n):
+    """implementation-free: the Lean transcription (`tp-auth`), the Lean §7.3/§7.4 reference (`tp-auth-rfc`) and the python
+    oracle take the same accept / reject decision on n synthetic (handshake, block) pairs - the executable twin of
+    `tp_block_auth_iff_rfc`, and the guarantee that the three judges used on the real traces mean the same thing"""
+    import os
+    from vlib import DRIVER, run_lines
+    if not os.path.exists(DRIVER):
+        ctx.oblige("correspond", "tpauth synthetic cross-check (driver missing)", False, DRIVER)
+        return
+    ops = synthetic_ops(ctx.rng("tpauth/synthetic"), n)
+    lines = [o[0] for o in ops]
+    rc, a, err = run_lines([DRIVER, "tp-auth"], lines)
+    rc2, b, err2 = run_lines([DRIVER, "tp-auth-rfc"], lines)
+    if rc != 0 or rc2 != 0 or len(a) != len(lines) or len(b) != len(lines):
+        ctx.oblige("correspond", "tpauth synthetic cross-check", False, f"driver failed rc={rc}/{rc2} {err[-300:]} {err2[-300:]}")
+        return
+    bad = []
+    dist = {}
+    for (line, role, blk, peer, retry, odcid), x, y in zip(ops, a, b):
+        ctx.evaluations += 1
+        expect, why = rfc_expect_raw(role, blk, peer, retry, odcid)
+        key = x.split(" | ")[0]
+        dist[key] = dist.get(key, 0) + 1
+        if x == "bad-op" or y == "bad-op":
+            bad.append(f"{line}: bad-op")
+        elif (x == "ok accept") != (y == "ok accept"):
+            bad.append(f"{line}: model {x}, Lean RFC {y}")
+        elif expect is not None and expect != (y == "ok accept"):
+            bad.append(f"{line}: Lean RFC {y}, python {'valid' if expect else 'invalid: ' + why}")
+        if x == "ok accept":
+            ctx.nontrivial.add("tpauth-syn|" + line)
+    for k, v in sorted(dist.items()):
+        ctx.count("tpauth:synthetic:" + k.replace(" ", ":"), v)
+    ctx.oblige("correspond", f"Conn.TpAuth.onPeerBlock = Rfc (Lean) = python §7.3/§7.4 on {len(lines)} synthetic (handshake, block) pairs "
+               f"({dist.get('ok accept', 0)} accepted)", not bad, "; ".join(bad[:3]))
+    if bad:
+        ctx.violation("c14:auth:references-disagree", bad[0], {"kind": "ops", "lean_component": "tp-auth", "ops": [bad[0].split(": ")[0]]}, found_input=True)
 
 
 def show(x):
